@@ -82,7 +82,30 @@ fn model_of(case: &Case) -> Option<&GenModel> {
     }
 }
 
+fn bounds_case_has_tag(c: &crate::bounds_world::BoundsCase, tag: &str) -> bool {
+    use crate::bounds_world::SExp;
+    match tag {
+        // some multiplier / divisor of the source model has magnitude below 1e-6 or above 1e6
+        "extreme-coefficient" => c.model.cons.iter().any(|con| {
+            let mut subs = Vec::new();
+            con.lhs.subexpressions(&mut subs);
+            con.rhs.subexpressions(&mut subs);
+            subs.iter().any(|e| match e {
+                SExp::MulL(d, _) | SExp::MulR(_, d) | SExp::Div(_, d) => {
+                    let v = d.f().abs();
+                    v != 0.0 && !(1e-6..=1e6).contains(&v)
+                }
+                _ => false,
+            })
+        }),
+        _ => false,
+    }
+}
+
 pub fn has_tag(case: &Case, tag: &str) -> bool {
+    if let Case::Bounds(b) = case {
+        return bounds_case_has_tag(b, tag);
+    }
     let Some(m) = model_of(case) else {
         return false;
     };
@@ -99,6 +122,34 @@ pub fn has_tag(case: &Case, tag: &str) -> bool {
         }),
         // every variable continuous (an LP)
         "continuous" => m.is_continuous(),
+        // the equality rows are linearly dependent (exact rank < number of equality rows)
+        "dependent-equality-rows" => {
+            use crate::q::Q;
+            let mut rows: Vec<Vec<Q>> = m
+                .rows
+                .iter()
+                .filter(|r| r.cmp == crate::model::Cmp::Eq)
+                .map(|r| r.coefs.iter().map(|c| Q::from_f64(*c)).collect())
+                .collect();
+            let total = rows.len();
+            let mut rank = 0;
+            for col in 0..m.n() {
+                if let Some(p) = (rank..rows.len()).find(|i| !rows[*i][col].is_zero()) {
+                    rows.swap(rank, p);
+                    let piv = rows[rank].clone();
+                    for i in 0..rows.len() {
+                        if i != rank && !rows[i][col].is_zero() {
+                            let f = rows[i][col].div(piv[col]);
+                            for k in 0..m.n() {
+                                rows[i][k] = rows[i][k].sub(f.mul(piv[k]));
+                            }
+                        }
+                    }
+                    rank += 1;
+                }
+            }
+            m.is_continuous() && rank < total
+        }
         // bound propagation inside the builder / compiler front door narrows some continuous
         // variable to a sliver (narrower than 1e-6 relative, but not a point): the linear
         // model handed to the solver is then numerically on a tolerance edge although the
